@@ -3,7 +3,7 @@
 //!   F<n> feed next n bytes (F0 = all remaining)   I try_init (implicit after each feed while uninit)
 //!   R<k> render_frame(k)   RA render every loaded keyframe   L render_loading_frame
 //!   M metadata queries     A aux boxes      J jpeg_reconstruction_status   X reconstruct_jpeg
-//!   C request_color_encoding(sRGB linear) + rendered_icc     Q request_icc(rendered icc)
+//!   C request_color_encoding(sRGB linear) + rendered_icc     Q request_icc(rendered icc)   Q<n> the same cut to n bytes
 //!   P<l>:<t>:<w>:<h> set_image_region   Z finalize   W read() whole buffer instead of feeding
 //! Answer: one word per step: ok / err / need / skip / panic_<site>
 use jxl_oxide::{AllocTracker, CropInfo, InitializeResult, JxlImage, JxlThreadPool, UninitializedJxlImage};
@@ -233,7 +233,16 @@ fn run(bytes: &[u8], script: &str, limit: usize) -> String {
                     }
                     "Q" => {
                         step(&mut out, || {
-                            let icc = img.rendered_icc();
+                            // `Q<n>`: the profile cut to n bytes with its size field corrected (the caller's
+                            // ICC bytes are untrusted input as well)
+                            let mut icc = img.rendered_icc();
+                            if let Ok(n) = arg.parse::<usize>() {
+                                icc.truncate(n);
+                                if icc.len() >= 4 {
+                                    let l = (icc.len() as u32).to_be_bytes();
+                                    icc[..4].copy_from_slice(&l);
+                                }
+                            }
                             img.request_icc(&icc).map_err(|_| "err".into())
                         });
                     }
